@@ -122,6 +122,19 @@ class HexModel:
         for k, n in enumerate(self.names):
             expr, w = find(n); self.width[n] = w
             acc.append(f"    case {k}: return &{expr}{'[0]' if n == 'memory_q' else ''};")
+        # every other scalar member of the design (registers and nets this harness does not know by name)
+        known = set()
+        for n in self.names:
+            for where, tbl in tables.items():
+                for k in tbl:
+                    if k == n or k == '__PVT__' + n or k.endswith('__DOT__' + n): known.add((where, k))
+        self.extra = []
+        for where, tbl in tables.items():
+            for k, w in sorted(tbl.items()):
+                if (where, k) in known or k.startswith('__V') or 'memory_q' in k: continue
+                self.extra.append((where, k, w))
+        for j, (where, k, w) in enumerate(self.extra):
+            acc.append(f"    case {len(self.names) + j}: return &s->{where}.{k};")
         cpps = sorted(c for c in glob.glob(os.path.join(d, f'{pre}_*__DepSet_*.cpp')))
         wire = f"*({pre}__Syms**)&s->TOP.vlSymsp = s;"
         if 'TOP__hex' in tables: wire += f" *({pre}__Syms**)&s->TOP__hex.vlSymsp = s; s->TOP.hex = &s->TOP__hex;"
@@ -157,7 +170,7 @@ void* m_f({pre}__Syms* s, int k) {{
         E.stubs['_Z17VL_TESTPLUSARGS_IRKNSt7__cxx1112basic_stringIcSt11char_traitsIcESaIcEEE'] = stubs.s_ret0
         return E
 
-    def fresh(self, E, mem_arr, over=None):
+    def fresh(self, E, mem_arr, over=None, junk=False):
         st = State()
         size = E.run1('m_size', [], st)[1]
         p = st.alloc(size, 'hex-syms')
@@ -165,6 +178,13 @@ void* m_f({pre}__Syms* s, int k) {{
         self.fp = {}
         for k, n in enumerate(self.names):
             st, q = E.run1('m_f', [p, k], st); self.fp[n] = q
+        self.junk = []
+        if junk:
+            # members unknown to the harness (a register added to the design, or a net) hold arbitrary values: nets are
+            # recomputed by the settle evaluation, registers keep them - the clock must not depend on them
+            for j, (where, k, w) in enumerate(self.extra):
+                st, q = E.run1('m_f', [p, len(self.names) + j], st)
+                v = z3.BitVec(f'rtl_member_{k}', 8*w); E.store(st, q, w, v); self.junk.append((k, v))
         st.objs[p.obj].regions.append(Region(self.fp['memory_q'].off, 4, self.memwords, mem_arr, over))
         # __Vm_activity etc. (trace bookkeeping) are plain members initialised by the Syms constructor
         st.objs[p.obj].zero.append((0, self.fp['memory_q'].off if self.fp['memory_q'].off < 4096 else 4096))
@@ -193,6 +213,12 @@ void* tb_reg(Vhex_pkg* t, int k) {
   return 0;
 }
 unsigned long tb_memoff(Vhex_pkg_memory* m) { return (char*)&m->memory_q[0] - (char*)m; }
+void* tb_memfield(Vhex_pkg_memory* m, int k) {
+  switch (k) {
+MEMFIELDS
+  }
+  return 0;
+}
 Vhex_pkg* tb_new(VerilatedContext* c) { return new Vhex_pkg{c, "TOP"}; }
 int tb_run(VerilatedContext* c, Vhex_pkg* t, unsigned long maxc) {
   const std::unique_ptr<VerilatedContext> contextp{c};
@@ -217,6 +243,9 @@ void tb_settime(VerilatedContext* c, unsigned long t) { c->time(t); }
 unsigned long tb_gettime(VerilatedContext* c) { return c->time(); }
 }
 '''
+        mm = _members(os.path.join(d, f'{pre}_memory.h')) if os.path.exists(os.path.join(d, f'{pre}_memory.h')) else {}
+        self.memfields = [(k, w) for k, w in sorted(mm.items()) if 'memory_q' not in k]
+        src = src.replace('MEMFIELDS', '\n'.join(f"    case {j}: return &m->{k};" for j, (k, w) in enumerate(self.memfields)))
         wrap = os.path.join(d, 'tbwrap.cpp'); open(wrap, 'w').write(src)
         self.ll = build.ir(wrap, includes=[d, VL_INC, os.path.join(VL_INC, 'vltstd')], extra=['-fno-inline'] if noinline else [])
         self.M = parse_module(self.ll)
